@@ -186,33 +186,41 @@ fn guarded<T>(f: impl FnOnce() -> Result<T, (String, String)>) -> Result<T, (Str
     crate::infra::catch(f).unwrap_or_else(|p| Err((crate::infra::panic_signature(&p), format!("panic: {}", p))))
 }
 
-/// builder_history (C12): byte 0 = number of earlier steps (0..=10); every step is 18 bytes
-/// [kind, a_lo, a_hi, b_lo, b_hi, 13-byte mutation]: kind&3 = 0|3 pool entry a (the C12 pool: every type, full lists,
-/// refused-first and refused-late messages), 1 = the mutated corpus message (type a, base b, one mutation), 2 = a
-/// build_generated_message call (type a, seed b). The last step is the target.
+/// builder_history (C12): byte 0 = number of earlier steps (0..=10); every step is 32 bytes
+/// [kind, a_lo, a_hi, b_lo, b_hi, two 13-byte mutations, pad]: kind&7 = 1|5 the mutated corpus message (type a, base b,
+/// two type-directed mutations, e.g. a list length and an extreme leaf: "refused at element k"), 2 = a
+/// build_generated_message call (type a, seed b), 4 = a residue probe (1059 message with payload length chosen by a whose
+/// last byte has one data bit and seven padding bits), otherwise pool entry a (the C12 pool: every type, full lists,
+/// refused-first and refused-late messages). The last step is the target.
 pub fn run_builder_history(data: &[u8]) -> Vec<Finding> {
+    const STEP: usize = 32;
     let mut out = Vec::new();
-    if data.len() < 1 + 18 {
+    if data.len() < 1 + STEP {
         return out;
     }
     let want = 1 + (data[0] as usize % 11);
     let pool = c12::pool(FUZZ_CORPUS_SEED);
     let corp = msggen::corpus(FUZZ_CORPUS_SEED);
-    enum Owned {
+    static PROBES: std::sync::OnceLock<Vec<(usize, Message, Vec<u8>)>> = std::sync::OnceLock::new();
+    let probes = PROBES.get_or_init(c12::residue_probes);
+    enum Owned<'a> {
         P(usize),
         M(Message, crate::value::Value),
         G(u16, u64),
+        R(&'a Message),
     }
     let mut owned: Vec<Owned> = Vec::new();
-    for ch in data[1..].chunks_exact(18).take(want) {
+    for ch in data[1..].chunks_exact(STEP).take(want) {
         let a = u16::from_le_bytes([ch[1], ch[2]]);
         let b = u16::from_le_bytes([ch[3], ch[4]]);
-        match ch[0] & 3 {
-            1 => {
-                let sel = u32::from_le_bytes([ch[5], ch[6], ch[7], ch[8]]);
-                let mut arg = [0u8; 8];
-                arg.copy_from_slice(&ch[10..18]);
-                let r = Recipe { type_index: a, base_index: b, ops: vec![(sel, ch[9], u64::from_le_bytes(arg))] };
+        match ch[0] & 7 {
+            1 | 5 => {
+                let op = |o: &[u8]| -> MutOp {
+                    let mut arg = [0u8; 8];
+                    arg.copy_from_slice(&o[5..13]);
+                    (u32::from_le_bytes([o[0], o[1], o[2], o[3]]), o[4], u64::from_le_bytes(arg))
+                };
+                let r = Recipe { type_index: a, base_index: b, ops: vec![op(&ch[5..18]), op(&ch[18..31])] };
                 let built = msggen::run_recipe(corp, &r, true);
                 if let Some(m) = built.message {
                     owned.push(Owned::M(m, built.tree));
@@ -222,6 +230,7 @@ pub fn run_builder_history(data: &[u8]) -> Vec<Finding> {
                 let row = &MSG_TABLE[(a as usize * MSG_TABLE.len()) >> 16];
                 owned.push(Owned::G(row.number, b as u64));
             }
+            4 if !probes.is_empty() => owned.push(Owned::R(&probes[(a as usize * probes.len()) >> 16].1)),
             _ => owned.push(Owned::P((a as usize * pool.len()) >> 16)),
         }
     }
@@ -233,6 +242,7 @@ pub fn run_builder_history(data: &[u8]) -> Vec<Finding> {
         .map(|o| match o {
             Owned::P(i) => c12::StepRef::Build(&pool[*i].msg),
             Owned::M(m, _) => c12::StepRef::Build(m),
+            Owned::R(m) => c12::StepRef::Build(m),
             Owned::G(n, s) => c12::StepRef::Generated(*n, *s),
         })
         .collect();
@@ -242,6 +252,7 @@ pub fn run_builder_history(data: &[u8]) -> Vec<Finding> {
             .map(|o| match o {
                 Owned::P(i) => pool[*i].tree.to_json(),
                 Owned::M(_, t) => t.to_json(),
+                Owned::R(m) => msggen::message_to_value(m).to_json(),
                 Owned::G(n, s) => json!({"t":"generated","number":n,"seed":s}),
             })
             .collect();
@@ -467,16 +478,18 @@ pub fn seed_inputs(target: &str) -> Vec<Vec<u8>> {
         }
         "builder_history" => {
             // two- to six-step histories walking through the pool at regular strides, every step kind present
-            for k in 0..160u32 {
+            for k in 0..200u32 {
                 let n = 1 + (k % 5) as u8;
                 let mut v = vec![n];
                 for j in 0..=(n as u32) {
                     let a = (k.wrapping_mul(409).wrapping_add(j * 9973) % 65536) as u16;
                     let b = (k.wrapping_mul(31).wrapping_add(j * 7)) as u16;
-                    v.push(((k + j) % 4) as u8);
+                    v.push(((k + j) % 8) as u8);
                     v.extend_from_slice(&a.to_le_bytes());
                     v.extend_from_slice(&b.to_le_bytes());
                     v.extend_from_slice(&[0x80, 0x80, 0x80, 0x80, 3, 1, 2, 3, 4, 5, 6, 7, 8]);
+                    v.extend_from_slice(&[0x40, 0x40, 0x40, 0x40, (k % 16) as u8, 8, 7, 6, 5, 4, 3, 2, 1]);
+                    v.push(0);
                 }
                 out.push(v);
             }
